@@ -53,3 +53,191 @@ def plan_C15(tier, seed):
         "floors": {"cells": 2 * 73, "distinct_nontrivial": 73},
         "assumptions": ["the specification table in harness/src/c15.rs is written from the rustdoc of flussab::Parsed/ResultExt"],
     }
+
+
+def plan_C16(tier, seed):
+    L = q(tier, 7, 9)
+    total = sum(6 ** l for l in range(L + 1))
+    ns = q(tier, 4000, 200000)
+    jobs = [
+        Job("enum-chk", "chk", "c16", total, {"mode": "enum", "max_len": L}, crash_is_violation=True),
+        Job("enum-rel", "rel", "c16", total if tier == "thorough" else sum(6 ** l for l in range(6 + 1)),
+            {"mode": "enum", "max_len": L}, crash_is_violation=True),
+        Job("sampled-chk", "chk", "c16", ns, {"mode": "sampled"}, crash_is_violation=True),
+        Job("sampled-rel", "rel", "c16", ns, {"mode": "sampled"}, crash_is_violation=True),
+    ]
+    return {
+        "level": "exploration",
+        "exhaustive": True,
+        "rule": "enum: every string over {space,tab,CR,LF,'a','c'} of length <= %d x every start offset 0..len+1 x "
+                "{tabs_or_spaces,newline,next_newline} and fixed(p) for p in {empty, every prefix up to 5 bytes of the rest, "
+                "the same with last/first byte mutated, rest+'a', rest+CRLF}, each with a fresh reader under 1-byte reads and "
+                "chunk size 1 (plus once with pre-buffered data and an advanced cursor); checked: returned offset == "
+                "reference, position unchanged, bytes delivered by the source == max(delivered before, last index the "
+                "reference must inspect + 1), read calls <= needed. sampled: random strings up to 19000 bytes, random "
+                "offsets/patterns/chunk sizes/schedules (fixed, one-shot, random with Interrupted, two-part split); checked: "
+                "offset, position, and that no successful read starts once the deciding byte is buffered. "
+                "Non-trivial = the scanner passes over >= 1 byte or has to inspect beyond its start offset; distinct by hash "
+                "of (string, offset, function, pattern, pre-buffer/schedule) - at most 200000 hashes per enum worker are "
+                "stored, so the distinct count is a lower bound of the counter nontrivial_evals." % L,
+        "jobs": jobs,
+        "primary_jobs": ["enum-chk", "sampled-chk"],
+        "eval_counters": ["evals_strict", "evals_loose"],
+        "floors": {"evals_strict": q(tier, 20_000_000, 1_000_000_000), "evals_loose": q(tier, 100_000, 5_000_000),
+                   "distinct_nontrivial": 100_000},
+        "assumptions": ["reference semantics of the four helpers are taken from their rustdoc in flussab/src/text.rs"],
+    }
+
+
+def plan_C13(tier, seed):
+    KL = q(tier, 6, 8)
+    blocks = (sum(10 ** l for l in range(KL + 1)) + 99_999) // 100_000
+    nb = q(tier, 60_000, 3_000_000)
+    jobs = [
+        Job("kernel-rel", "rel", "c13", blocks, {"mode": "kernel", "kernel_len": KL}, crash_is_violation=True),
+        Job("kernel-chk", "chk", "c13", q(tier, 2, blocks), {"mode": "kernel", "kernel_len": KL}, crash_is_violation=True),
+        Job("lanes-chk", "chk", "c13", q(tier, 18, 18 * 10), {"mode": "lanes"}, crash_is_violation=True),
+        Job("lanes-rel", "rel", "c13", q(tier, 18, 18 * 10), {"mode": "lanes"}, crash_is_violation=True),
+        Job("boundary-chk", "chk", "c13", nb, {"mode": "boundary"}, crash_is_violation=True),
+        Job("boundary-rel", "rel", "c13", nb, {"mode": "boundary"}, crash_is_violation=True),
+    ]
+    if tier == "thorough":
+        jobs.append(Job("boundary-miri", "miri-san", "c13", 320, {"mode": "boundary"}, nshards=16, crash_is_violation=True,
+                        wall_limit=3000))
+    return {
+        "level": "exploration",
+        "exhaustive": tier == "thorough",
+        "rule": "kernel: every decimal digit string of length 0..%d, with and without a leading '-', followed by a "
+                "terminator cycling through {space,LF,tab,'-',':','/','a',0x00,0xff}, scanned through the public _multi "
+                "functions (i64,u64,i32,u32) with >= 8 bytes buffered (SWAR path) from one streaming reader - "
+                "%s. lanes: for every count k=0..8 of digits before the terminator and every terminator byte 0..255, signed "
+                "and unsigned, fully buffered (fast path) and with < 8 bytes buffered behind stale digits (cold path). "
+                "boundary: per integer type (i8..i128,isize,u8..u128,usize) MIN, MAX, +-1 around them, 10^k+-1, 1..60 digits, "
+                "0..30 leading zeros, '-0', lone '-', random digit-biased bytes; all four scanners; every amount 0..24 of "
+                "buffered bytes (selects fast/cold path; the bytes behind the valid window are stale digits). Oracle: "
+                "decimal-string reference (no machine arithmetic): Some(v) iff representable and v exact, offset = end of "
+                "the run, lone '-' not consumed, position unchanged, multi == simple. Non-trivial = at least one byte is "
+                "passed over; distinct by hash of (bytes, offset, type, buffered amount, stale prefix); kernel hashes are "
+                "capped at 100000 per worker (lower bound)." % (KL, "complete enumeration" if tier == "thorough" else
+                                                               "complete for lengths <= 6 in the quick tier"),
+        "jobs": jobs,
+        "primary_jobs": ["kernel-rel", "lanes-chk", "boundary-chk"],
+        "eval_counters": ["kernel_evals", "evals"],
+        "floors": {"kernel_evals": q(tier, 10_000_000, 1_000_000_000), "evals": q(tier, 1_000_000, 50_000_000),
+                   "distinct_nontrivial": 100_000},
+        "assumptions": ["signed scanners are also exercised with unsigned target types (property quantifies over all twelve types)"],
+    }
+
+
+def plan_C02(tier, seed):
+    n = q(tier, 48_000, 2_000_000)
+    jobs = [
+        Job("hist-chk", "chk", "c02", n, {"max_ops": 600, "max_stream": 1 << 20}, crash_is_violation=True),
+        Job("hist-rel", "rel", "c02", n, {"max_ops": 600, "max_stream": 1 << 20}, crash_is_violation=True),
+    ]
+    if tier == "thorough":
+        jobs.append(Job("hist-asan", "asan", "c02", 200_000, {"max_ops": 400, "max_stream": 1 << 18}, crash_is_violation=True))
+        jobs.append(Job("hist-miri", "miri-san", "c02", 160, {"max_ops": 120, "max_stream": 3000}, nshards=16,
+                        crash_is_violation=True, wall_limit=3000))
+    return {
+        "level": "exploration",
+        "rule": "random operation histories (50..600 ops drawn from request(n), request_byte, request_byte_at_offset(k), "
+                "request_more, advance(n), advance_with_buf(n), set_mark, set_mark_to_position(p incl. near usize::MAX), "
+                "set_chunk_size(1..65536), check_io_error) on a bare DeferredReader built via from_read / from_boxed_dyn_read / "
+                "from_buf_reader(empty and partly consumed BufReader), over position-identifying zero-free streams of 0..1 MiB "
+                "delivered under one-shot, fixed-k, two-part, random and random+Interrupted schedules ending in EOF, early EOF "
+                "or a terminal error at a random offset. After EVERY operation: buf()==stream[cursor..delivered], buf_len, "
+                "buf_ptr, position()==cursor, mark()==absolute offset it was set to, is_complete/is_at_end/io_error exactly "
+                "as the source log says, short requests only after end/error, check_io_error reports once, and the read "
+                "discipline (one successful read per request_more, none when satisfied, none after end). A history is "
+                "non-trivial if it has >= 3 refills, >= 1 mark check more than 2*chunk bytes after the mark was set with a "
+                "refill in between, and >= 1 short request; distinct by hash of (stream length, ops, read calls, final cursor, index).",
+        "jobs": jobs,
+        "primary_jobs": ["hist-chk"],
+        "eval_counters": ["cases"],
+        "floors": {"ops": q(tier, 10_000_000, 400_000_000), "refills": 1_000_000,
+                   "mark_checks_far_after_refill": q(tier, 100_000, 1_000_000),
+                   "variant:from_buf_reader(partly consumed)": 1000, "ended_err": 1000,
+                   "interrupted_retries": 10_000, "distinct_nontrivial": q(tier, 3_000, 100_000)},
+        "assumptions": ["position() wrap-around at 2^64 bytes cannot be driven; only set_mark_to_position exercises wrapping mark arithmetic"],
+    }
+
+
+def plan_C11(tier, seed):
+    n = q(tier, 1600, 60_000)
+    jobs = [
+        Job("hist-chk", "chk", "c11", n, {"max_ops": 300, "max_faults": 24}, crash_is_violation=True),
+        Job("hist-rel", "rel", "c11", n, {"max_ops": 300, "max_faults": 24}, crash_is_violation=True),
+    ]
+    if tier == "thorough":
+        jobs.append(Job("hist-asan", "asan", "c11", 8000, {"max_ops": 200, "max_faults": 8}, crash_is_violation=True))
+        jobs.append(Job("hist-miri", "miri-san", "c11", 48, {"max_ops": 14, "max_faults": 2}, nshards=16,
+                        crash_is_violation=True, wall_limit=3000))
+    return {
+        "level": "exploration",
+        "rule": "generated operation histories (5..300 ops: Write::write / write_all / write_all_defer_err of 0..3*capacity "
+                "bytes biased around capacity+-40, write::text::ascii_digits for all twelve integer types with boundary-heavy "
+                "values, buf_write_ptr(n)+advance_unchecked(m<=n), flush, flush_defer_err, check_io_error, drop) on a real "
+                "DeferredWriter. Each history runs once over a non-failing sink (accept-all / short writes / short+Interrupted) "
+                "and then once per sink write call j that occurred (all j up to 24, sampled beyond) with the sink failing (or "
+                "returning Ok(0)) at call j, sometimes with a second failure later. Judged after every operation from the "
+                "merged client/sink log: non-failing - sink contents are always a prefix of the written stream and equal to "
+                "it after every flush and after drop, flush returns Ok; failing - write calls succeed, no sink call between a "
+                "failure and its report, the report comes from the next flush/check_io_error exactly once, later data "
+                "arrives again, every accepted piece continues an in-order duplicate-free selection of the written stream "
+                "(earliest-match per piece); buf_write_ptr(n) is non-null iff n more bytes fit. A run is non-trivial if the "
+                "sink saw >= 2 write calls and more than one buffer capacity was written; distinct by hash of (index, sink "
+                "calls, fault position, bytes written).",
+        "jobs": jobs,
+        "primary_jobs": ["hist-chk"],
+        "eval_counters": ["runs"],
+        "floors": {"runs": q(tier, 20_000, 800_000), "sink_failures_injected": q(tier, 10_000, 400_000),
+                   "ints_via_cold_path": 1000, "buf_write_ptr_nonnull": 10_000, "int_type:i128": 1000, "int_type:u8": 1000,
+                   "distinct_nontrivial": q(tier, 10_000, 300_000)},
+        "assumptions": ["the writer's capacity is learnt through buf_write_ptr on a fresh writer, not assumed"],
+    }
+
+
+def plan_C14(tier, seed):
+    nr, nw = q(tier, 16_000, 600_000), q(tier, 1600, 40_000)
+    jobs = [
+        # behavioural half, both assertion settings
+        Job("reader-chk", "chk", "c14r", nr, {"max_ops": 400, "max_stream": 1 << 18}, crash_is_violation=True),
+        Job("reader-rel", "rel", "c14r", nr, {"max_ops": 400, "max_stream": 1 << 18}, crash_is_violation=True),
+        Job("writer-chk", "chk", "c14w", nw, {"max_ops": 200}, crash_is_violation=True),
+        Job("writer-rel", "rel", "c14w", nw, {"max_ops": 200}, crash_is_violation=True),
+        # sanitizer half: AddressSanitizer (debug assertions off) and Miri (assertions off and on)
+        Job("reader-asan", "asan", "c14r", q(tier, 8_000, 400_000), {"max_ops": 300, "max_stream": 1 << 16}, crash_is_violation=True),
+        Job("writer-asan", "asan", "c14w", q(tier, 800, 20_000), {"max_ops": 150}, crash_is_violation=True),
+        Job("reader-miri", "miri-san", "c14r", q(tier, 32, 640), {"max_ops": 90, "max_stream": 2000}, nshards=16,
+            crash_is_violation=True, wall_limit=3000),
+        Job("writer-miri", "miri-san", "c14w", q(tier, 16, 160), {"max_ops": 12}, nshards=16,
+            crash_is_violation=True, wall_limit=3000),
+    ]
+    if tier == "thorough":
+        jobs.append(Job("reader-miri-chk", "miri-chk", "c14r", 320, {"max_ops": 90, "max_stream": 2000}, nshards=16,
+                        crash_is_violation=True, wall_limit=3000))
+        jobs.append(Job("reader-memcheck", "rel", "c14r", 1600, {"max_ops": 200, "max_stream": 1 << 14}, nshards=16,
+                        crash_is_violation=True, valgrind=True, wall_limit=3000))
+        jobs.append(Job("writer-memcheck", "rel", "c14w", 160, {"max_ops": 100}, nshards=16,
+                        crash_is_violation=True, valgrind=True, wall_limit=3000))
+    return {
+        "level": "exploration",
+        "rule": "the C02 reader histories and C11 writer histories extended with hostile steps, every one wrapped in "
+                "catch_unwind and followed by ordinary operations: advance(n)/advance_with_buf(n) with n from buf_len()+1 up "
+                "to usize::MAX, sources that return more bytes than the slice they were given, sources that panic, sinks "
+                "that panic (then more writes, flushes and drop). Behavioural oracle: after a caught panic buf_len(), buf() "
+                "content, position() and mark() are the model's state from before the failed call (length compared first so a "
+                "wild slice is reported, not read); nothing beyond what the source really delivered is exposed (streams are "
+                "position-identifying and zero-free, so zero fill or stale bytes cannot pass). Sanitizer oracle: the same "
+                "histories, content reads included, under AddressSanitizer (debug assertions off, so a broken invariant "
+                "reaches get_unchecked/set_len) and under Miri; any sanitizer report, abort or signal is attributed to the "
+                "journalled history and is a violation. A history is non-trivial if >= 1 panic was caught and >= 2 refills "
+                "happened (reader) or the sink saw >= 2 calls over more than one capacity (writer).",
+        "jobs": jobs,
+        "primary_jobs": ["reader-chk", "writer-chk"],
+        "eval_counters": ["cases"],
+        "floors": {"panics_caught": q(tier, 100_000, 3_000_000), "lying_reads": q(tier, 2_000, 50_000),
+                   "distinct_nontrivial": q(tier, 5_000, 100_000)},
+        "assumptions": ["red-zone tools and Miri do not see an access that stays inside the reader's own Vec but outside the valid window; that case is covered only by the behavioural (content) oracle"],
+    }
